@@ -97,6 +97,11 @@ def execute(spec):
                 # reports fabricated before the order has processed any of them (e.g. PendingNew and Ack prepared together)
                 for et, os_ in (("A", "A"), ("0", "0")):
                     fabricate({"et": et, "os": os_, "cum": -1, "leaves": -1, "last": -1, "px": -1, "qty": -1}, str(o.clord_id), "", False)
+                # an order filled at once: the first report of all is a (partial) fill
+                q0 = u(o.qty)
+                fabricate({"et": "F", "os": "2", "cum": q0, "leaves": 0, "last": q0, "px": -1, "qty": -1}, str(o.clord_id), "", False)
+                if q0 > 1:
+                    fabricate({"et": "F", "os": "1", "cum": 1, "leaves": q0 - 1, "last": 1, "px": -1, "qty": -1}, str(o.clord_id), "", False)
             elif a == "c_cancel":
                 last_req = ft.fix_cxl_request(o)
             elif a == "c_replace":
